@@ -166,18 +166,70 @@ QUICK_FAMILIES = ["shape", "scc", "lat", "agg", "timeout", "ds", "par"]
 SPECS["C01"] = {"run": prog_check(["shape", "scc"], "C01"), "replay": prog_replay,
                 "technique": "bounded-exhaustive enumeration of programs (compiled by the real macros) x all input databases, compared with a naive reference evaluator",
                 "assumptions": P_ASSUME + ["programs from the families F-shape and F-scc, domain {0,1}"]}
+SCHED = os.path.join(ENGINES, "sched")
+TARGET_SCHED = os.path.join(ROOT, "build", "target-sched")
+PAR_HARNESSES = ["H1-diamond-tc", "H2-two-rules-one-head", "H3-lattice-min", "H4-lattice-then-aggregate", "H5-negation", "H7-three-way-join"]
+
+
+def build_sched():
+    import subprocess
+    p = subprocess.run([os.path.join(SCHED, "mkshims.sh")], capture_output=True, text=True)
+    if p.returncode != 0:
+        raise MachineryError("mkshims.sh failed: " + p.stderr[-1000:])
+    cargo_build(SCHED, ["--release"], env={"CARGO_TARGET_DIR": TARGET_SCHED})
+
+
+def run_sched(prop, binary, names, tier, seed, extra_env=None, timeout=3000):
+    """runs one process per harness name (VSCHED_ONLY) in parallel and merges them into one part"""
+    from concurrent.futures import ThreadPoolExecutor
+    from vlib.driver import merge
+    def one(nm):
+        env = {"VSCHED_ONLY": nm, "VSCHED_PROP": prop}
+        env.update(extra_env or {})
+        tag = "".join(c if c.isalnum() else "_" for c in nm)
+        return run_part("%s.vsched.%s.%s" % (prop, binary, tag), [os.path.join(TARGET_SCHED, "release", binary)], tier, seed, env=env, timeout=timeout)
+    with ThreadPoolExecutor(max_workers=16) as ex:
+        reps = list(ex.map(one, names))
+    m = merge(reps)
+    return {"part": "vsched/%s" % binary, "states": m["states"], "transitions": m["transitions"], "executions": m["executions"],
+            "evaluations": m["evaluations"], "nontrivial": m["nontrivial"], "exhaustive": m["exhaustive"], "caps_hit": m["caps_hit"],
+            "samples": m["samples"][:4], "extras": {k.split(".", 1)[1] if "." in k else k: v for k, v in m["extras"].items()},
+            "violations": m["violations"], "violation_total": m["violation_total"], "sig_counts": m["sig_counts"],
+            "rule": reps[0].get("rule", ""), "wall_s": max(r.get("wall_s", 0) for r in reps)}
+
+
+def par_sched_part(prop, tier, seed):
+    build_sched()
+    names = ["%s[%s]" % (h, v) for h in PAR_HARNESSES for v in ("par", "par+irp")]
+    return run_sched(prop, "par", names, tier, seed)
+
+
+def sched_replay(binary):
+    def replay(prop, path, tier, seed):
+        r = json.load(open(path))["replay"]
+        if "harness" not in r:
+            return prog_replay(prop, path, tier, seed)
+        build_sched()
+        rep = run_part(prop + ".replay", [os.path.join(TARGET_SCHED, "release", binary), "--replay", path], tier, seed, env={"VSCHED_PROP": prop})
+        for v in rep.get("violations", []):
+            print("REPLAY-VIOLATION property=%s %s" % (prop, v["desc"][:800]))
+        print("replay: %d violation(s) reproduced" % rep.get("violation_total", 0))
+        return 1 if rep.get("violation_total", 0) else 0
+    return replay
+
+
 def c02_run(prop, tier, seed):
-    reps = [run_family(prop, "par", tier, seed, "C02")]
+    reps = [par_sched_part(prop, tier, seed), run_family(prop, "par", tier, seed, "C02")]
     # C02 speaks about programs accepted by both front ends: a unit whose parallel variant is rejected by
     # rustc is outside its premise (reported under C15); but if many units drop out the run is vacuous
     fails = COMPILE_FAILURES.get(("par", tier), {})
-    reps[0].setdefault("extras", {})["units_not_accepted_by_both_front_ends"] = len(fails)
+    reps[1].setdefault("extras", {})["units_not_accepted_by_both_front_ends"] = len(fails)
     if len(fails) > 12:
         raise MachineryError("%d units of the par family do not compile: the differential check would be vacuous" % len(fails))
     return reps
 
 
-SPECS["C02"] = {"run": c02_run, "replay": prog_replay,
+SPECS["C02"] = {"run": c02_run, "replay": sched_replay("par"),
                 "technique": "differential serial vs parallel macros on bounded-exhaustive programs x inputs at the default schedule (one rayon worker); exhaustive schedule exploration of collision harnesses under vsched",
                 "assumptions": P_ASSUME + ["this part runs the parallel code on a one-worker rayon pool (the 0-deviation schedule)"]}
 SPECS["C03"] = {"run": prog_check(["lat"], "C03"), "replay": prog_replay,
